@@ -138,8 +138,15 @@ class FullGen:
         """One statement that needs ten or more temporaries of one kind (tmp_10 / tmp_10$ ...), or a READ with ten or more numeric targets."""
         g = self.g
         k = self.d(st.integers(10, 16))
-        r = self.d(st.integers(0, 3))
+        r = self.d(st.integers(0, 4))
         self.kinds.add("scale_statement_%d" % r)
+        if r == 4 and g.convertible:
+            # one converted call whose own text is longer than a BASIC09 source line (255): INT of a sum of 60-90 operands
+            g.n_conv += 1
+            e_ = ["var", g.real_vars[0]]
+            for i in range(self.d(st.integers(60, 90))):
+                e_ = ["bin", self.d(st.sampled_from(["+", "-"])), e_, ["var", g.real_vars[i % 4]]]
+            return ["let", g.num_target(), ["bin", "+", ["num", "1", 1], ["fn", "INT", [e_]]], False]
         leafs = [["var", v] for v in g.real_vars[:4]] + [["num", str(i), i] for i in (1, 2, 3)]
         if r == 0:
             items = []
@@ -431,7 +438,7 @@ def full_programs(draw, switches=frozenset(), max_lines=10, operand_depth=1, wit
         if i == nest_at and not open_loops:
             fg.kinds.add("loop_nest")
             depth_ = draw(st.integers(2, 3))
-            vs = ["N%d" % q for q in range(depth_)]
+            vs = draw(st.sampled_from([["N%d" % q for q in range(3)], ["NA", "N", "N1"], ["N", "N2", "NN"]]))[:depth_]  # names that are prefixes of one another
             stmts = [["for", v, g.num(0), g.num(0), None] for v in vs]
             stmts.append(fg.misc())
             if stmts[-1][0] in ("rem", "data"):
@@ -472,7 +479,7 @@ def full_programs(draw, switches=frozenset(), max_lines=10, operand_depth=1, wit
                               draw(st.lists(st.sampled_from(nums), min_size=1, max_size=12 if fg.big else 4))])
             elif r < 14 and with_control and len(open_loops) < 3:
                 fg.kinds.add("for")
-                v = "L%d" % len(open_loops)
+                v = ["L2", "L", "LL"][len(open_loops)]
                 open_loops.append(v)
                 stmts.append(["for", v, g.num(1), g.num(1), draw(st.sampled_from([None, None, ["num", "2", 2], ["neg", ["num", "1", 1]], "e"]))])
                 if stmts[-1][4] == "e":
